@@ -197,6 +197,8 @@ class Gen:
                 ("def %s(x):\n    return x  # final comment" % name, 1),
                 ("def %s(x):\n    g = lambda y: y + %d\n\n    return g(x)" % (name, k), 1),
                 ("def %s(x):\n    return None" % name, 1),
+                # a form feed (and NEL) inside a literal, with a comment on the last line (FunctionDefParser re-attaches it)
+                ("def %s(x):\n    t = 'a\x0cb\x85c'\n    return len(t) + x  # last" % name, 1),
                 ("def %s(x, y):\n    s = \"str with # hash and \\\\ backslash\"\n    return len(s) + x + y" % name, 2)]
         if sibs1:
             s = r.choice(sibs1)
